@@ -6,7 +6,7 @@
    (r, id) exactly when a cdp id of that type is stored and r is the (clipped)
    collateral:debt ratio recomputed from the STORED record — "indexed exactly once under
    its current collateral-to-debt ratio". *)
-From Kava Require Import Base.Prelude Base.Dec Model.Cdp Proofs.CdpRatio Proofs.Cdp Proofs.CdpInv Proofs.CdpInv2 Proofs.CdpInv3 Proofs.CdpCust.
+From Kava Require Import Base.Prelude Base.Dec Model.Cdp Proofs.CdpRatio Proofs.Cdp Proofs.CdpInv Proofs.CdpInv2 Proofs.CdpInv3 Proofs.CdpCust Proofs.CdpDebt Proofs.CdpOwn Proofs.CdpPrin Proofs.CdpClose.
 
 (** ** The ratio index along the code paths that rewrite it *)
 
@@ -108,6 +108,77 @@ Theorem C04_genesis_custody :
 Proof. exact init_CustInv. Qed.
 Print Assumptions C04_genesis_custody.
 
+(** ** Owner index: every cdp is listed exactly once, under its owner *)
+(* [OwnInv s] (Proofs/CdpOwn.v): for every owner the id list has no duplicate and contains id exactly
+   when a cdp with that id and that owner is stored (under some collateral type).
+   [Inv3 e s] = IdxInv e s /\ CustInv e s /\ OwnInv s: both indexes and custody together; every
+   operation keeps it, hence every history does. *)
+Theorem C04_invariant_step :
+  forall e s o s' u, env_wf e -> params_ok e -> Inv3 e s -> step e s o = Ok s' u -> Inv3 e s'.
+Proof. exact step_Inv3. Qed.
+Print Assumptions C04_invariant_step.
+
+Theorem C04_invariant_all_histories :
+  forall e ops, env_wf e -> params_ok e -> forall s, Inv3 e s -> Inv3 e (run e s ops).
+Proof. exact run_Inv3. Qed.
+Print Assumptions C04_invariant_all_histories.
+
+Theorem C04_genesis_owner_index :
+  forall bals sups prices status ifacs ptimes startid t h,
+  OwnInv (mk_state bals sups prices status ifacs ptimes startid t h).
+Proof. exact init_OwnInv. Qed.
+Print Assumptions C04_genesis_owner_index.
+
+(** ** Stable / debt accounting *)
+(* [debt_held e s] = debt coins in the cdp, liquidator and auction module accounts.
+   Every operation keeps (debt supply - debt_held) unchanged and does not increase
+   (stable supply - debt supply): stable and debt coins are minted together (create, draw, interest
+   accumulation) and burned together (repay — where the debt burn is capped by the module's debt
+   balance, so the debt side can only lag —, netting of surplus against debt).  Hence along every
+   history: the debt coin exists only in the three module accounts, and the stable coin issued by the
+   module (supply minus the genesis supply usdx0) never exceeds it. *)
+Theorem C04_debt_step :
+  forall e s o s' u, denoms_ok e -> env_wf e -> step e s o = Ok s' u ->
+  sup s' (d_debt e) - debt_held e s' = sup s (d_debt e) - debt_held e s /\
+  sup s' (d_usdx e) - sup s' (d_debt e) <= sup s (d_usdx e) - sup s (d_debt e).
+Proof. exact dm_step. Qed.
+Print Assumptions C04_debt_step.
+
+Theorem C04_debt_all_histories :
+  forall e usdx0 ops s, denoms_ok e -> env_wf e ->
+  sup s (d_debt e) = debt_held e s /\ sup s (d_usdx e) - usdx0 <= debt_held e s ->
+  let s' := run e s ops in
+  sup s' (d_debt e) = debt_held e s' /\ sup s' (d_usdx e) - usdx0 <= debt_held e s'.
+Proof. intros e usdx0 ops s Hd Hw H. exact (DebtInv_run e usdx0 ops s Hd Hw H). Qed.
+Print Assumptions C04_debt_all_histories.
+
+(** ** Total principal moves with the debt of the cdps (exact, per operation) *)
+(* The clause "total principal = sum of cdp debt up to interest rounding" is a statement about products of
+   rounded interest factors; the model proves the exact per-operation bookkeeping (below: create, draw,
+   seizure, interest accumulation; repay is symmetric) and the Go monitor [total-principal-drift] checks the
+   bound on every step of every history against the implementation.  A closed-form bound over all
+   histories is not proved. *)
+Theorem C04_total_principal_create :
+  forall e s o t cd coll pd prin s' u, create e s o t cd coll pd prin = Ok s' u ->
+  tprin s' t = tprin s t + prin /\ (forall t', t' <> t -> tprin s' t' = tprin s t').
+Proof. exact create_tprin. Qed.
+Print Assumptions C04_total_principal_create.
+
+Theorem C04_total_principal_draw :
+  forall e s o t pd x s' u, draw e s o t pd x = Ok s' u ->
+  tprin s' t = tprin s t + x /\ (forall t', t' <> t -> tprin s' t' = tprin s t') /\
+  exists cp c0 s1 c, find_cdp e s o t = Some c0 /\ sync_interest e s cp c0 = Ok s1 c /\
+    cdps s' (c_type c) (c_id c) = Some (with_prin c (c_prin c + x)).
+Proof. exact draw_tprin. Qed.
+Print Assumptions C04_total_principal_draw.
+
+Theorem C04_total_principal_seize :
+  forall e s cp c s' u, seize e s cp c = Ok s' u ->
+  tprin s' (c_type c) = Z.max (tprin s (c_type c) - cdp_debt c) 0 /\
+  (forall t', t' <> c_type c -> tprin s' t' = tprin s t').
+Proof. exact seize_tprin. Qed.
+Print Assumptions C04_total_principal_seize.
+
 (** ** Closing returns to every depositor exactly what they deposited *)
 (* ReturnCollateral: each depositor's balance of the collateral denom grows by exactly the recorded
    deposit, nothing else moves, the module account pays exactly the sum of the deposits, the
@@ -123,6 +194,17 @@ Theorem C04_close_returns_deposits :
   (forall i w, i <> c_id c -> deps s' i w = deps s i w).
 Proof. exact return_collateral_spec. Qed.
 Print Assumptions C04_close_returns_deposits.
+
+(* ... and at message level: a repayment after which the cdp is gone (exact payment or over-payment)
+   has paid every depositor exactly the recorded deposit and deleted the deposit records. *)
+Theorem C04_repay_close_returns_deposits :
+  forall e s o t pd x s' u c0 cp, env_wf e -> IdxInv e s -> CustInv e s ->
+  repay e s o t pd x = Ok s' u -> find_cdp e s o t = Some c0 -> get_cp e t = Some cp ->
+  cdps s' (c_type c0) (c_id c0) = None ->
+  forall w, (w < nusers e)%nat ->
+    bal s' w (cp_denom cp) = bal s w (cp_denom cp) + oz0 (deps s (c_id c0) w) /\ deps s' (c_id c0) w = None.
+Proof. exact repay_close. Qed.
+Print Assumptions C04_repay_close_returns_deposits.
 
 (** ** Seizure hands over exactly the deposits and removes the position (custody side of C05_seizure_whole) *)
 Theorem C04_seizure_removes_position :
@@ -173,15 +255,17 @@ Definition x_s0 : state :=
            [17250000000000000000; 17250000000000000000; 500000000000000000; 500000000000000000] [true; true; true; true]
            [1000000000000000000; 1000000000000000000; 1000000000000000000]
            [1704067200000000000; 1704067200000000000; 1704067200000000000] 1 1704067200000000000 1.
-Example C04_env_hypotheses_satisfiable : env_wf x_env /\ params_ok x_env /\ Inv2 x_env x_s0.
+Example C04_env_hypotheses_satisfiable : env_wf x_env /\ params_ok x_env /\ denoms_ok x_env /\ Inv3 x_env x_s0.
 Proof.
   assert (G : forall t cp, get_cp x_env t = Some cp -> (cp_denom cp = 0%nat \/ cp_denom cp = 4%nat) /\ 0 <= cp_reward cp).
   { intros t cp H. destruct t as [|[|[|t]]]; cbn in H; try (inversion H; subst; cbn; split; [auto|lia]). destruct t; discriminate. }
-  split; [|split; [|split]].
+  split; [|split; [|split; [|split; [|split]]]].
   - intros t cp H. destruct (G t cp H) as [[D|D] _]; rewrite D; cbn; split; discriminate.
   - intros t cp H. apply (G t cp H).
+  - cbn. discriminate.
   - apply C04_genesis_IdxInv.
   - apply C04_genesis_custody. intros t cp H. destruct (G t cp H) as [[D|D] _]; rewrite D; reflexivity.
+  - apply C04_genesis_owner_index.
 Qed.
 
 Example C04_nonvacuous :
